@@ -587,10 +587,13 @@ Definition at_node_end (c : cursor) : bool :=
   match c with [_] :: _ => true | _ => false end.
 
 (* fetchNode + skipToNodeStart below a parent stack, or invalidateAtEnd when
-   the parent is out of bounds *)
+   the parent is out of bounds. Totalisation: a parent whose current entry is a
+   value (impossible in a tree of uniform depth: the real code would read a
+   value as a chunk address and fail) is treated as holding a one-entry leaf. *)
 Definition refetch (par : cursor) : cursor :=
   match par with
   | ((_, EC _ ch) :: _) :: _ => items ch :: par
+  | ((k, EV v) :: _) :: _ => [(k, EV v)] :: par
   | _ => [] :: par
   end.
 
@@ -706,7 +709,7 @@ Qed.
 (* for a leaf-level cursor: advance removes exactly the current key/value pair *)
 Corollary advance_sem_leaf k v f par :
   all_valid par -> cur_sem (advance (((k, EV v) :: f) :: par)) = tl (cur_sem (((k, EV v) :: f) :: par)).
-Proof. intros Hv. rewrite (advance_sem _ (k, EV v) f par eq_refl Hv). reflexivity. Qed.
+Proof. intros Hv. exact (advance_sem _ (k, EV v) f par eq_refl Hv). Qed.
 
 Lemma cursor_at_start_sem t : shape t = true -> cur_sem (cursor_at_start t) = flatten t.
 Proof.
